@@ -2,7 +2,7 @@
     Models: GoChannel/Sub.v (Layer A: Senders, consumer and teardown of ONE subscription) and
     GoChannel/Reg.v (Layer B: Publish / Subscribe / teardown / Close and their locks). *)
 From WM Require Import Base.Prelude Message.Model GoChannel.Sub GoChannel.SubProofs
-                       GoChannel.Reg GoChannel.RegWitness.
+                       GoChannel.Reg GoChannel.RegWitness GoChannel.RegLocks GoChannel.RegInv GoChannel.RegSend.
 
 (** For every buffer size, any number of Sender goroutines (publishers / replays), every
     consumer behaviour and every schedule: at most ONE copy is in flight (handed to the output
@@ -44,3 +44,14 @@ Theorem C05_blocking_returns_refuted :
   /\ mem 1 (acked s) = false /\ gclosing s = false /\ Reg.panicked s = false.
 Proof. exact d9_deadlock. Qed.
 Print Assumptions C05_blocking_returns_refuted.
+
+(** "With BlockPublishUntilSubscriberAck, Publish returns only after every subscription that was
+    active for the message has Acked it (or ... the Pub/Sub was closed)": for every schedule, a
+    blocking Publish that has returned successfully has, for each of its messages, seen all its
+    Senders finish ([acked]: a Sender finishes on the Ack or on its subscription's closing -
+    Layer A) or the Pub/Sub closing. *)
+Theorem C05_blocking_publish_waits : forall pers ls t p,
+  let s := grun (ginit pers true true) ls in
+  Reg.thr s t = PDone true -> In p (pmsgs s t) -> mem p (acked s) = true \/ gclosing s = true.
+Proof. exact blocking_waits. Qed.
+Print Assumptions C05_blocking_publish_waits.
